@@ -27,6 +27,7 @@ type paramHandler struct {
 	probeGot  []byte
 	pause     bool // the handler takes its time after reading: it waits for proceed
 	proceed   bool
+	closeSendFirst bool // the handler half-closes explicitly before returning
 }
 
 func (h *paramHandler) HandleRPC(stream drpc.Stream, rpc string) error {
@@ -55,6 +56,9 @@ func (h *paramHandler) HandleRPC(stream drpc.Stream, rpc string) error {
 		_ = stream.MsgSend(&out, hx.ByteEnc{})
 	}
 	h.served++
+	if h.closeSendFirst {
+		_ = stream.CloseSend()
+	}
 	if h.fail {
 		return &hx.Err{S: "handler failed"}
 	}
@@ -73,7 +77,7 @@ func VerifH_ServerNextRPC() {
 	vrt.Assume(j >= 0 && j <= maxj && k >= 0 && k <= maxj)
 	ending := vrt.Int("ending")
 	vrt.Assume(ending >= 0 && ending < numEndings)
-	h := &paramHandler{k: k, respond: vrt.Bool("respond"), fail: vrt.Bool("fail"), pause: vrt.Bool("pause")}
+	h := &paramHandler{k: k, respond: vrt.Bool("respond"), fail: vrt.Bool("fail"), pause: vrt.Bool("pause"), closeSendFirst: vrt.Bool("closeSendFirst")}
 	vrt.Tag("cancel-for-never-invoked-stream", ending == endCancelOnly || ending == endCancelAfterMeta)
 	vrt.Tag("handler-leaves-messages-unread", k < j && ending != endCancelOnly && ending != endCancelAfterMeta)
 
@@ -160,8 +164,10 @@ func VerifH_ServerNextRPC() {
 					vrt.Assert(okp, "the error packet carries exactly the handler's message and code")
 					sawFinal = true
 				case drpcwire.KindCloseSend:
-					vrt.Assert(!h.fail, "a successful handler never yields an error at the client")
-					sawFinal = true
+					vrt.Assert(!h.fail || h.closeSendFirst, "a successful handler never yields an error at the client")
+					if !h.fail {
+						sawFinal = true
+					}
 				}
 			}
 			if sawFinal && h.respond && ending == endCloseSendThenClose {
